@@ -52,18 +52,23 @@ Lemma pstep_accept_gen f s top :
   pstep tb eb rec discard f s = Accept s.
 Proof. intros H1 H2. unfold pstep. rewrite H1, H2. reflexivity. Qed.
 
+(* the state the shift branch hands to _readToken *)
+Definition shift_state (s : pstate) (v : Z) (b : bounds) : pstate :=
+  let s0 := set_stack s ({| i_state := v; i_sym := lasym s; i_bounds := b |} :: stack s) in
+  if (la s =? ERROR)%Z then s0 else set_shifts s0 (shifts s + 1)%Z (rec_shifts s).
+
 Lemma pstep_shift_gen f s top v :
   peek (stack s) 0 = Some top ->
   find (t_actions tb) (i_state top) (la s) = FFound v ->
   v <> accept_code -> (0 <= v)%Z -> tokish (lasym s) ->
   exists b,
     pstep tb eb rec discard f s =
-    match read_token tb (set_stack s ({| i_state := v; i_sym := lasym s; i_bounds := b |} :: stack s)) with
+    match read_token tb (shift_state s v b) with
     | None => Crash
     | Some s2 => Continue s2
     end.
 Proof.
-  intros H1 H2 Hna Hv Hl. unfold pstep. rewrite H1, H2.
+  intros H1 H2 Hna Hv Hl. unfold pstep, shift_state. rewrite H1, H2.
   destruct (v =? accept_code)%Z eqn:E; [apply Z.eqb_eq in E; contradiction|].
   rewrite Z.geb_leb. destruct (0 <=? v)%Z eqn:E2; [|apply Z.leb_gt in E2; lia].
   destruct eb.
@@ -86,7 +91,8 @@ Lemma pstep_reduce_gen f s top v tc rule res top' ns :
                               :: skipn (Z.to_nat tc) (stack s))) /\
     la s1 = la s /\ lasym s1 = lasym s /\ qla s1 = qla s /\ qlasym s1 = qlasym s /\
     input s1 = input s /\
-    In (ERed (- v) res) (trace s1) /\ incl (trace s) (trace s1).
+    In (ERed (- v) res) (trace s1) /\ incl (trace s) (trace s1) /\
+    shifts s1 = shifts s /\ rec_shifts s1 = rec_shifts s.
 Proof.
   intros H1 H2 Hna Hv Htc Hrule Hact Htc0 Hlen Hpk Hg. unfold pstep. rewrite H1, H2.
   destruct (v =? accept_code)%Z eqn:E; [apply Z.eqb_eq in E; contradiction|].
